@@ -350,6 +350,11 @@ func (f *File) seekWithoutLocking(offset int64, whence int) (int64, error) {
 		return 0, config.ErrNotImplemented
 	}
 
+	// There is nothing in front of the first byte
+	if dst < 0 {
+		return 0, os.ErrInvalid
+	}
+
 	if f.readOpReader == nil || f.readOpWriter == nil || dst < int64(f.readOpReader.BytesRead) { // We have to re-open as we can't seek backwards
 		_ = f.closeWithoutLocking() // Ignore errors here as it might not be opened
 
@@ -391,17 +396,9 @@ func (f *File) seekWithoutLocking(offset int64, whence int) (int64, error) {
 
 	_, err := io.CopyN(io.Discard, f.readOpReader, dst-int64(f.readOpReader.BytesRead))
 	if err == io.EOF {
-		// Noop
-		switch whence {
-		case io.SeekStart:
-			return offset, nil
-		case io.SeekCurrent:
-			return int64(f.readOpReader.BytesRead) + offset, nil
-		case io.SeekEnd:
-			return int64(f.info.Size()) + offset, nil
-		default:
-			return 0, config.ErrNotImplemented
-		}
+		// The target lies behind the end of the content; it is still the position that has been asked for (the stream's
+		// byte count has moved to the end meanwhile, so it can't be used to work the position out again)
+		return dst, nil
 	}
 
 	if err != nil {
